@@ -24,6 +24,8 @@ def main():
     demos = [f for f in glob.glob(os.path.join(out, "*")) if f.endswith("_test.go") or f.endswith(".go")]
     meta = json.load(open(os.path.join(out, "meta.json"))) if os.path.exists(os.path.join(out, "meta.json")) else {}
     demo_cmd = open(os.path.join(out, "demo_cmd.txt")).read().strip() if os.path.exists(os.path.join(out, "demo_cmd.txt")) else ""
+    if not demo_cmd and meta.get("demo_cmd"):
+        demo_cmd = meta["demo_cmd"]
     wt = f"/tmp/cs-{name}"
     sh(f"git -C /repo worktree remove --force {wt}")
     rc, o = sh(f"git -C /repo worktree add -q --detach {wt} HEAD")
@@ -40,10 +42,10 @@ def main():
         for d in demos:
             base = os.path.basename(d)
             rc, found = sh(f"find {agent_wt} -name {base} -not -path '*/.git/*' | head -1")
-            rel = os.path.relpath(found.strip(), agent_wt) if found.strip() else os.path.join("internal/transfer", base)
+            rel = os.path.relpath(found.strip(), agent_wt) if found.strip() else (meta.get("demo_file") or os.path.join("internal/transfer", base))
             shutil.copy(d, os.path.join(wt, rel)); placed.append(rel)
             shutil.copy(d, os.path.join(dst, base))
-        cmd = demo_cmd.replace(agent_wt, wt)
+        cmd = demo_cmd.replace(agent_wt, wt).replace("<worktree>", wt)
         if "cd " not in cmd:
             cmd = f"cd {wt} && {cmd}"
         rc1, o1 = sh(cmd, cwd=wt); res["demo_fails_with_change"] = rc1 != 0
